@@ -25,6 +25,10 @@ def bodies(rng, tier):
            json.dumps(ok) + "\n\n", "﻿" + json.dumps(ok), json.dumps(dict(ok, extra=1)), '{"name":"a","name":"","email":"a@b.cd"}',
            '{"Name":"A","EMAIL":"a@b.cd"}', '{"name":"a\\u0000","email":"a@b.cd"}', '{"name":"\\ud800","email":"a@b.cd"}',
            '{"name":"' + "x" * 100000 + '","email":"a@b.cd"}', "nul", "NULL", "{\"name\":\"a\",\"email\":\"a@b.cd\"}\x00"]
+    # well-formed JSON objects that do not decode into the target type (wrong JSON type / out-of-range number for one field)
+    out += ['{"mode":"ok","n":"200"}', '{"mode":"ok","n":1e40}', '{"n":"x"}', '{"mode":"ok","tags":"notalist"}', '{"mode":"ok","sub":{"x":"s"}}', '{"mode":5}',
+            '{"mode":"ok","n":1.5}', '{"mode":"ok","tags":[1,2]}', '{"mode":"ok","sub":[]}', '{"mode":"ok","n":null,"tags":null}', '{"mode":"ok","n":7,"tags":["a"],"sub":{"x":1}}',
+            '{"name":"John","email":"john@example.com","age":"x"}', '{"name":["John"],"email":"john@example.com"}']
     for mode in ("ok", "fail", "canceled", "deadline", "wrapped-canceled", "wrapped-deadline", "empty-message", "zzz"):
         out.append(json.dumps({"mode": mode}))
         out.append(json.dumps({"mode": mode, "name": "John", "email": "john@example.com"}))
